@@ -29,6 +29,9 @@ def charged_sum(run, rule, ci, fn0, mean, energy_fn):
         run.fail(rule, K + 'carried:' + n_, ci.mod.relpath, st_.lineno,
                  "%s.%s rebinds '%s' inside the loop over the species from its own previous value (%s) and then uses it for the term of that "
                  "species: the term of each species contains what was subtracted for the species before it" % (ci.name, fn0.name, n_, norm(st_)[:60]))
+    from ._purity import check_sum, sum_accumulators
+    for nm_ in sorted({a[0] for a in sum_accumulators(fn0)}):
+        check_sum(run, rule, K + 'sum', ci.mod.relpath, fn0, nm_, '%s.%s' % (ci.name, fn0.name))
     fn = propagate(fn0)
     x, y, z, bv = [a.arg for a in fn.args.args[1:5]]
     XYZ = '(%s, %s, %s)' % (x, y, z)
